@@ -226,6 +226,29 @@ def parse_reports(text_lines, repo_src=None):
                                 key=key, text="\n".join(block[:40])))
             i = j
             continue
+        m = re.match(r"==\d+== (Conditional jump or move depends on "
+                     r"uninitialised value|Use of uninitialised value|"
+                     r"Invalid read|Invalid write|Invalid free|"
+                     r"Syscall param \S+ (?:points to|contains) "
+                     r"uninitialised|Mismatched free|Source and destination "
+                     r"overlap)", ln)
+        if m:
+            j = i + 1
+            fr = []
+            while j < n and re.match(r"==\d+==\s+(at|by) 0x", text_lines[j]):
+                mm = re.match(r"==\d+==\s+(?:at|by) 0x[0-9A-Fa-f]+: (\S+) "
+                              r"\((.*)\)", text_lines[j])
+                if mm and repo_src in mm.group(2):
+                    if not fr or fr[-1] != mm.group(1):
+                        fr.append(mm.group(1))
+                j += 1
+            kind = _norm_msg(m.group(1))
+            if fr:
+                reports.append(dict(tool="memcheck", kind=kind,
+                                    key="memcheck:%s:%s" % (kind, ":".join(fr[:2])),
+                                    text="\n".join(text_lines[i:min(j + 12, n)])))
+            i = j
+            continue
         m = re.match(r".*: (\S+):(\d+): (\S+): Assertion `(.*)' failed", ln)
         if m:
             key = "abort:assert:%s:%s" % (m.group(3), _norm_msg(m.group(4)))
@@ -320,8 +343,9 @@ def _run_cases(binary, cases, workdir, timeout=300, watchdog=60, halt=False,
         cmd = [binary, "--workdir", workdir, spath]
         if valgrind:
             cmd = ["valgrind", "-q", "--error-exitcode=0",
-                   "--track-origins=no", "--leak-check=no",
-                   "--undef-value-errors=yes"] + cmd
+                   "--track-origins=yes", "--leak-check=no",
+                   "--undef-value-errors=yes", "--fullpath-after=",
+                   "--num-callers=12"] + cmd
         try:
             p = subprocess.run(cmd, stdout=subprocess.DEVNULL,
                                stderr=subprocess.PIPE, env=san_env(halt),
